@@ -164,7 +164,7 @@ class _Info:
 
     def oracle_tables(self):
         """what ProfileData should contain, from the design description."""
-        orc, an = self.an.orc, self.an
+        orc = self.an.orc
         parents, by_method, confl = {}, {}, {}
         for mid in self.mids:
             mi = self.key_of[mid][1]
@@ -266,8 +266,6 @@ def _concrete_samples(info, o, model):
 def _cosim(ctx, an, info, K):
     """translator validation: a random K-cycle input trace through amaranth.sim and through the encoding; every ready / runnable / run
     signal the profiler samples is compared."""
-    from ..seq import bvval  # noqa: F401  (model evaluation helper used by Unroll.replay)
-
     rng = random.Random(ctx.seed * 31 + 7)
     u = Unroll(an.b, tag="c")
     eqs = []
@@ -631,6 +629,7 @@ def run(cfg, ctx):
         _decide(ctx, f"{name}: analyze_transactions: run / locked statistics equal the counts over the cycles", p.pc, stat_obligations(cycles, stats_pair, Ss), u2, rerun)
 
     # ---- (c) the real profiler_process on a stub engine
+    pc1 = 0
     for Kc in (1, 2):
         if Kc == 2 and (K < 2 or pc1 > (24 if thorough else 12)):
             break
